@@ -399,6 +399,9 @@ func (s *saver) saveMessage(msg *Message) *acmelibv1.Message {
 	pMsg.StartDelayTime = uint32(msg.startDelayTime)
 
 	for _, rec := range msg.Receivers() {
+		// the node of a receiver is saved also when none of its interfaces is attached to a bus
+		s.refNodes[rec.node.entityID] = rec.node
+
 		pMsg.Receivers = append(pMsg.Receivers, &acmelibv1.MessageReceiver{
 			NodeEntityId:        rec.node.entityID.String(),
 			NodeInterfaceNumber: uint32(rec.number),
